@@ -31,7 +31,7 @@ func init() {
 		Real:           []string{"server report handler (parse, verify, acceptance range, window guard, integrate, persist)", "rotation loop, impact loop", "stats/recent-reports/sync surfaces", "glow codecs and secp256k1", "real files on tmpfs"},
 		Stub:           []string{"UDP socket read loop (modelled: datagrams shorter than 80 bytes are discarded, longer ones cut to 80)"},
 		Assumptions:    []string{"the kernel-facing UDP loop hands exactly the leading 80 bytes of datagrams of at least 80 bytes to the report handler"},
-		RequiredProbes: []string{"c01.accepted", "c01.kind.bitflip", "c01.kind.resign-other", "c01.kind.slot-edge", "c01.kind.short", "c01.kind.long", "c01.kind.sentinel", "c01.kind.malleated-signature", "c01.stalled", "c01.rotated", "c01.edge.window-end", "c01.edge.accept+433", "c01.edge.accept-433"},
+		RequiredProbes: []string{"c01.accepted", "c01.kind.bitflip", "c01.kind.resign-other", "c01.kind.slot-edge", "c01.kind.short", "c01.kind.long", "c01.kind.sentinel", "c01.kind.malleated-signature", "c01.stalled", "c01.rotated", "c01.edge.window-end", "c01.edge.accept+433", "c01.edge.accept-433", "c01.edge.32-bit-extreme"},
 		RequiredSites:  []string{"migrate.wake", "report.before-write", "report.after-write", "migrate.before-shift", "listen.udp"},
 	})
 }
@@ -127,7 +127,11 @@ func runC01(m *Sim) {
 		// Base: a well-formed report of an authorized device.
 		slotChoices := []int64{int64(now), int64(now) - 432, int64(now) + 432, int64(now) - 433, int64(now) + 433,
 			int64(off) - 1, int64(off), int64(off) + 4031, int64(off) + 4032, int64(off) + 4033,
-			int64(now) - int64(m.C.Int("near", 433)), int64(now) + int64(m.C.Int("near", 433)), int64(off) + int64(m.C.Int("inwin", 4032))}
+			int64(now) - int64(m.C.Int("near", 433)), int64(now) + int64(m.C.Int("near", 433)), int64(off) + int64(m.C.Int("inwin", 4032)),
+			// The far ends of the 32 bit range: differences and sums that wrap when
+			// they are computed in 32 bits (now+2^32-k, now+2^31, offset-k mod 2^32).
+			1<<32 - 1, 1<<32 - 1 - int64(m.C.Int("top", 500)), 1 << 31, 1<<31 - 1, int64(now) + 1<<31,
+			(int64(now) + 1<<32 - int64(m.C.Int("wrap-back", 500))) % (1 << 32), (int64(off) + 1<<32 - 1 - int64(m.C.Int("wrap-off", 4032))) % (1 << 32)}
 		sc := m.C.Int("slot-kind", len(slotChoices))
 		sl := slotChoices[sc]
 		if sl < 0 {
@@ -142,6 +146,9 @@ func runC01(m *Sim) {
 			m.Probe("c01.edge.accept+433")
 		case 8:
 			m.Probe("c01.edge.window-end")
+		}
+		if sc >= 13 {
+			m.Probe("c01.edge.32-bit-extreme")
 		}
 		if sc >= 1 && sc <= 9 {
 			kinds["slot-edge"] = true
